@@ -226,6 +226,6 @@ class Images(ProductSystem):
 def build(tier, seed):
     if tier == "quick":
         specs = [[5, 5, 15, 0, 40], [8, 3, 15, 1, 36], [3, 8, 15, 2, 44], [5, 4, 20, seed + 3, 50]]
-        return [Images(specs, 2, [6, 3, 9])]
+        return [Images(specs, 3, [6, 3, 9])]
     specs = [[5, 5, 15, 0, 40], [8, 3, 15, 1, 36], [3, 8, 15, 2, 44], [5, 4, 20, seed + 3, 50], [6, 6, 10, 4, 60], [9, 4, 20, 5, 38], [4, 4, 25, 6, 90], [7, 7, 15, 7, 35]]
     return [Images(specs, 3, [6, 3, 4, 5, 7, 8, 9], shipped=["/repo/tests/data/test_nonzero.tif"])]
